@@ -305,9 +305,12 @@ def assemble(template_path, repo):
         i = nxt
     linemap = {}
     for bi, b in enumerate(blocks):
+        allt = set(b['tags'])
         for ln in range(b['first_line'], b['last_line'] + 1):
             m = TAGS.search(out_lines[ln - 1])
             linemap[ln] = (bi, m.group(1).replace(' ', '') if m else '')
+            if m: allt |= set(m.group(1).replace(' ', '').split(','))
+        b['all_tags'] = sorted(allt)
     return '\n'.join(out_lines), blocks, linemap
 
 
